@@ -346,6 +346,28 @@ def r16_2(ck):
     cm = ck.fn('Composite.merge', 'core.composer')
     _overrides(ck, ci, 'R16.2', 'self.processes', 'self.steps')
     _overrides(ck, cm, 'R16.2', 'self.processes', 'self.steps')
+    # each embedded part is exactly what its hook returned
+    for f in (cg, pg):
+        rets = [r for r in ast.walk(f.node) if isinstance(r, ast.Return)]
+        for part in ('processes', 'steps', 'flow', 'topology'):
+            hook = 'generate_' + part
+            for r in rets:
+                uses = [n for n in ast.walk(r) if isinstance(n, ast.Name)
+                        and n.id == part]
+                for u in uses[:1]:
+                    ds = reaching(f.node).at(r, part)
+                    ok = bool(ds) and all(
+                        isinstance(d.value, ast.Call) and A.call_name(
+                            d.value) == hook and A.is_name(
+                            A.call_receiver(d.value), 'self') for d in ds)
+                    ck.require(ok, 'R16.2', f, 'embedded ' + part,
+                               'the %s embedded are exactly what self.%s() '
+                               'returned' % (part, hook),
+                               'the %s of the composite are re-bound after '
+                               'self.%s() (%s): what the composer declared '
+                               'does not reach the composite on every path'
+                               % (part, hook, '; '.join(sorted(
+                                   A.short(d.stmt, 40) for d in ds))), r)
     # the four generate_* hooks are all consulted
     for f in (cg, pg):
         for hook in ('generate_processes', 'generate_steps',
